@@ -51,6 +51,19 @@ func plan(tier string, seed int64) []driver.Case {
 			}
 		}
 	}
+	// many items through concurrent subscriptions of one pipeline value: state shared by mistake has
+	// thousands of chances to be seen half-written (4 subscribers × 150 items each, on 4 goroutines)
+	for _, e := range catalog.All() {
+		if e.Flags.Has(catalog.Hot) || e.Flags.Has(catalog.NonDet) || e.Flags.Has(catalog.Creation) || e.Flags.Has(catalog.TimeDriven) || e.Flags.Has(catalog.HandOff) || e.Flags.Has(catalog.Async) {
+			continue
+		}
+		var long []string
+		for i := 0; i < 150; i++ {
+			long = append(long, fmt.Sprint(rng.Intn(3)))
+		}
+		long = append(long, "C")
+		cases = append(cases, driver.Case{ID: fmt.Sprintf("concsub-long/%s", e.Name), Race: tier == "thorough", P: map[string]string{"kind": "concsub", "entry": e.Name, "script": strings.Join(long, " "), "k": "4", "concurrent": "1"}})
+	}
 	// curried multi-source operators (xxxWith(others...)): one operator value applied to several main sources
 	for _, cu := range curriedOps {
 		for _, sc := range []string{"1 2 0 2 C", "2 1 E", "C", "1 1 2 2 0 C"} {
